@@ -85,7 +85,7 @@ theorem service_total_history (tls : Bool) (ops : List SOp) (hq : ∀ op ∈ ops
   (service_total _ (run_good loops_catch_oserror.1 loops_catch_oserror.2 ops hq (start_good tls))).1
 
 /-- non-vacuity: two peers, one resets during receive, one breaks the pipe on send -/
-example : (∀ op ∈ [SOp.conn ⟨1, [.fault 32], [.data [1]], []⟩, SOp.conn ⟨2, [], [.fault 104], []⟩, SOp.svc, SOp.tx 1 [7], SOp.svc],
+example : (∀ op ∈ [SOp.conn ⟨1, [.fault 32], [.data [1]], [], false⟩, SOp.conn ⟨2, [], [.fault 104], [], false⟩, SOp.svc, SOp.tx 1 [7], SOp.svc],
     op.quiet = true) := by decide
 
 /-- C10.3 siblings are unaffected: after the connects phase, what `service` leaves in the connection table is the table
